@@ -328,6 +328,15 @@ def check_shipped(ctx: Ctx):
                         keys = [k.value for k, v in node.value if isinstance(k, ScalarNode) and not str(k.tag).startswith("!")]
                         unknown = [k for k in keys if k not in pn]
                         missing = [p.name for p in params if p.default is None and p.kind == "pos" and p.name not in keys]
+                        if unknown:
+                            # keys the constructor does not name may still be what the class's own loader (or a
+                            # wrapper of the constructor) accepts: its from_yaml is run on a mapping with these keys
+                            try:
+                                _, o_, _ = call_cm(prog, c, "from_yaml", [Sym("CONSTRUCTOR"), Tagged("mapping", [tag, {k: Sym("V_" + k) for k in keys}])])
+                                if not (o_.kind == "raise" and o_.exc == "TypeError"):
+                                    unknown = []
+                            except (Undecided, AnchorMissing):
+                                pass
                         ctx.decide("R19.4", init, None, f"{path}:{where}:{tag}", "mapping keys are constructor parameters of the tagged class and every required parameter is present", not unknown and not missing, {"unknown": unknown, "missing": missing}, nontrivial=False)
                 for k, v in node.value:
                     visit(k, where + "/key")
